@@ -242,6 +242,89 @@ where
     }
 }
 
+/// Stream forms with count 0 over in-memory streams in every state a history can leave them in:
+/// cursors before, at and beyond the end of their data (after a seek or a truncation), exhausted
+/// slices, full sinks, vectors with spare capacity. A zero-count transfer is a successful no-op
+/// whatever the state of the stream, and the stream does not move.
+fn stream_forms_states<A: Copy + std::fmt::Debug, B: Bytes<A>>(k: &K, layer: &str, b: &B, addrs: &[(A, &str)], snapshot: &dyn Fn() -> Vec<u8>)
+where
+    B::E: std::fmt::Debug,
+{
+    use std::io::Cursor;
+    for (a, class) in addrs {
+        for dlen in [0usize, 4] {
+            for pos in [0u64, 2, 4, 5, 9, u64::MAX] {
+                let args = format!("addr {:?} count 0 Cursor over {} bytes at position {}", a, dlen, pos);
+                k.form(layer, "read_volatile_from(count 0, Cursor at any position)", class, args.clone(), snapshot, &mut || {
+                    let mut c = Cursor::new(vec![7u8; dlen]);
+                    c.set_position(pos);
+                    let r = want_ok(b.read_volatile_from(*a, &mut c, 0), |n| *n == 0);
+                    if c.position() != pos {
+                        return Err(format!("the cursor moved to {}", c.position()));
+                    }
+                    r
+                });
+                k.form(layer, "read_exact_volatile_from(count 0, Cursor at any position)", class, args.clone(), snapshot, &mut || {
+                    let mut c = Cursor::new(vec![7u8; dlen]);
+                    c.set_position(pos);
+                    let r = want_ok(b.read_exact_volatile_from(*a, &mut c, 0), |_| true);
+                    if c.position() != pos {
+                        return Err(format!("the cursor moved to {}", c.position()));
+                    }
+                    r
+                });
+                // a cursor that was drained and whose data was then truncated
+                k.form(layer, "read_exact_volatile_from(count 0, Cursor truncated behind its position)", class, args.clone(), snapshot, &mut || {
+                    let mut c = Cursor::new(vec![7u8; dlen + 6]);
+                    c.set_position(pos.min(dlen as u64 + 6));
+                    c.get_mut().truncate(dlen);
+                    want_ok(b.read_exact_volatile_from(*a, &mut c, 0), |_| true)
+                });
+                k.form(layer, "write_volatile_to(count 0, Cursor at any position)", class, args.clone(), snapshot, &mut || {
+                    let mut store = vec![7u8; dlen];
+                    let mut c = Cursor::new(&mut store[..]);
+                    c.set_position(pos);
+                    let r = want_ok(b.write_volatile_to(*a, &mut c, 0), |n| *n == 0);
+                    if c.position() != pos {
+                        return Err(format!("the cursor moved to {}", c.position()));
+                    }
+                    r
+                });
+                k.form(layer, "write_all_volatile_to(count 0, Cursor at any position)", class, args.clone(), snapshot, &mut || {
+                    let mut store = vec![7u8; dlen];
+                    let mut c = Cursor::new(&mut store[..]);
+                    c.set_position(pos);
+                    let r = want_ok(b.write_all_volatile_to(*a, &mut c, 0), |_| true);
+                    if c.position() != pos || store.iter().any(|x| *x != 7) {
+                        return Err("the sink changed".into());
+                    }
+                    r
+                });
+            }
+            let args = format!("addr {:?} count 0 in-memory stream of {} bytes", a, dlen);
+            k.form(layer, "read_exact_volatile_from(count 0, exhausted &[u8])", class, args.clone(), snapshot, &mut || {
+                let data = vec![7u8; dlen];
+                let mut src: &[u8] = &data[dlen..];
+                want_ok(b.read_exact_volatile_from(*a, &mut src, 0), |_| true)
+            });
+            k.form(layer, "write_all_volatile_to(count 0, full &mut [u8])", class, args.clone(), snapshot, &mut || {
+                let mut data = vec![7u8; dlen];
+                let mut dst: &mut [u8] = &mut data[dlen..];
+                want_ok(b.write_all_volatile_to(*a, &mut dst, 0), |_| true)
+            });
+            k.form(layer, "write_all_volatile_to(count 0, Vec with contents and spare capacity)", class, args.clone(), snapshot, &mut || {
+                let mut sink: Vec<u8> = Vec::with_capacity(dlen + 3);
+                sink.extend(std::iter::repeat(7u8).take(dlen));
+                let r = want_ok(b.write_all_volatile_to(*a, &mut sink, 0), |_| true);
+                if sink.len() != dlen {
+                    return Err("bytes were handed to the sink".into());
+                }
+                r
+            });
+        }
+    }
+}
+
 /// Copies of zero-sized elements / with empty buffers through a volatile slice.
 fn copy_forms<S: BitmapSlice>(k: &K, layer: &str, vs: &VolatileSlice<S>, snapshot: &dyn Fn() -> Vec<u8>) {
     let len = vs.len();
@@ -346,6 +429,7 @@ fn slice_layer(k: &K) {
             let valid: Vec<(usize, &str)> = vec![(0, "mapped"), (3, "mapped"), (len - 1, "last-byte")];
             stream_forms(k, layer, &vs, &valid, &snap);
             stream_forms_fd(k, layer, &vs, &valid, &snap);
+            stream_forms_states(k, layer, &vs, &valid, &snap);
         }
         copy_forms(k, layer, &vs, &snap);
     }
@@ -363,6 +447,7 @@ where
     let valid: Vec<(GuestAddress, &str)> = mapped.iter().map(|a| (GuestAddress(*a), "mapped")).collect();
     stream_forms(k, &layer, m, &valid, snapshot);
     stream_forms_fd(k, &layer, m, &valid, snapshot);
+    stream_forms_states(k, &layer, m, &valid, snapshot);
     // region level
     for (i, reg) in m.iter().enumerate() {
         let layer = format!("region({})", tag);
@@ -382,6 +467,7 @@ where
         }
         stream_forms(k, &layer, reg, &valid, snapshot);
         stream_forms_fd(k, &layer, reg, &valid, snapshot);
+        stream_forms_states(k, &layer, reg, &valid, snapshot);
         let _ = i;
         // slices handed out by the region
         if let Ok(vs) = reg.as_volatile_slice() {
@@ -465,7 +551,7 @@ fn xen_regions(k: &K) {
 pub fn run(tier: Tier, replay: Option<String>) -> i32 {
     let ctx = crate::new_ctx("C18", tier, "exploration", &replay);
     let build: &'static str = if cfg!(feature = "xen") { "xen" } else { "std" };
-    ctx.set_rule("every zero-length form of the byte-access interface - write/read/write_slice/read_slice with an empty buffer, write_obj/read_obj of the crate's zero-sized types ([u8;0] .. [u128;0], [i8;0], [usize;0]), the four stream forms with count 0, VolatileSlice::copy_to/copy_from and VolatileArrayRef::copy_to/copy_from/copy_to_volatile_slice with zero-sized elements, empty buffers, zero element counts and empty destinations - x three layers (volatile slice incl. an empty container, region, guest memory; mmap collection and trait-default implementation) x address classes {mapped, last byte, one past a region / the end, in a hole, out of range, 0, u64::MAX / usize::MAX} (stream and copy forms: addresses valid for a non-empty access); Xen build: UNIX, foreign, grant in advance and grant on demand on the emulated devices. Required: Ok(0)/Ok(()), no panic/abort/fault, memory and dirty bitmap identical before and after. One case = one form at one address; distinct by construction; all are non-trivial (each reaches the implementation).");
+    ctx.set_rule("every zero-length form of the byte-access interface - write/read/write_slice/read_slice with an empty buffer, write_obj/read_obj of the crate's zero-sized types ([u8;0] .. [u128;0], [i8;0], [usize;0]), the four stream forms with count 0 (in-memory, File, UnixStream and a minimal stream; in-memory streams in every state a history leaves them in: cursors over 0 and 4 bytes at positions before, at and beyond the end incl. u64::MAX and after a truncation, exhausted slices, full sinks, vectors with spare capacity - the stream may not move), VolatileSlice::copy_to/copy_from and VolatileArrayRef::copy_to/copy_from/copy_to_volatile_slice with zero-sized elements, empty buffers, zero element counts and empty destinations - x three layers (volatile slice incl. an empty container, region, guest memory; mmap collection and trait-default implementation) x address classes {mapped, last byte, one past a region / the end, in a hole, out of range, 0, u64::MAX / usize::MAX} (stream and copy forms: addresses valid for a non-empty access); Xen build: UNIX, foreign, grant in advance and grant on demand on the emulated devices. Required: Ok(0)/Ok(()), no panic/abort/fault, memory and dirty bitmap identical before and after. One case = one form at one address; distinct by construction; all are non-trivial (each reaches the implementation).");
     ctx.assume("the element count reported for copies of zero-sized elements is recorded, not judged; device windows requested for zero-length accesses on on-demand regions are counted, not judged");
     if ctx.replay_of.is_some() {
         println!("replay: deterministic enumeration; re-running it");
